@@ -368,7 +368,7 @@ func oracleC09(p *Plan, res *Result) (*common.Fail, string) {
 	want := m.emits
 	sort.SliceStable(want, func(i, j int) bool { return want[i].t < want[j].t })
 	if m.relaxed {
-		return oracleC09Relaxed(p, res, m, want, got, gotIdx)
+		return oracleC09Overlap(p, res)
 	}
 	key := func(e ctlEmit) string {
 		if e.svc == "ConnReq" {
@@ -689,4 +689,275 @@ func classifyC09(p *Plan, res *Result, rec *common.Rec) bool {
 		rec.Class("tcp")
 	}
 	return (failedHb || disc) && (len(m.epochs) > 1 || selfTerm)
+}
+
+
+// oracleC09Overlap judges histories whose heartbeat interval is below the response timeout, where
+// exchanges overlap and which exchange receives a given response is not determined. It works on the
+// epochs *observed* in the trace and asserts only what holds for every assignment:
+//
+//	(1) every exchange starts on time: a request for the current channel at s + k*h;
+//	(2) every connection-state request lies on the schedule x_k + j*r (j*r <= T) of some exchange of its
+//	    epoch and carries the epoch's channel; none is sent between the end of an epoch and the next one;
+//	(3) an epoch that ends with a reconnect does so because of a disconnect request, at an exchange's
+//	    timeout, or when a non-OK response for the current channel was available;
+//	(4) an exchange for which no OK response for the current channel was ever available ends its epoch
+//	    by x_k + T at the latest;
+//	(5) the connect request is repeated on the schedule e + j*r.
+func oracleC09Overlap(p *Plan, res *Result) (*common.Fail, string) {
+	evs := res.Events
+	r := int64(p.Cfg.ResendUs) * 1000
+	T := int64(p.Cfg.TimeoutUs) * 1000
+	h := int64(p.Cfg.HeartbeatUs) * 1000
+	type ep struct {
+		ch       int
+		s, e     int64 // e = -1: open at the end of the trace
+		endIdx   int
+		why      string // reconnect | terminated | open
+		discReq  bool   // a disconnect request for the channel was taken at e
+	}
+	var eps []*ep
+	var cur *ep
+	connAt := int64(-1)
+	firstCh := -1
+	endT := int64(0)
+	for i, e := range evs {
+		endT = e.T
+		switch {
+		case e.K == "dlv" && e.Svc == "ConnRes" && e.St == 0 && connAt < 0:
+			firstCh = e.Ch
+		case e.K == "conn<":
+			if e.Err != "" {
+				return nil, "initial connect failed"
+			}
+			connAt = e.T
+			cur = &ep{ch: firstCh, s: e.T, e: -1, why: "open"}
+			eps = append(eps, cur)
+		case connAt < 0:
+		case e.K == "out" && e.Svc == "ConnReq" && cur != nil:
+			cur.e, cur.endIdx, cur.why = e.T, i, "reconnect"
+			for _, x := range evs[:i] {
+				if x.K == "dlv" && x.Svc == "DiscReq" && x.T == e.T && x.Ch == cur.ch {
+					cur.discReq = true
+				}
+			}
+			cur = nil
+		case e.K == "dlv" && e.Svc == "ConnRes" && e.St == 0 && cur == nil:
+			// only counts if the client is still reconnecting (not terminated): judged by what follows
+			cur = &ep{ch: e.Ch, s: e.T, e: -1, why: "open"}
+			eps = append(eps, cur)
+		case (e.K == "close>" || e.K == "sockdie" || (e.K == "dlv" && e.Svc == "DiscRes" && cur != nil && e.Ch == cur.ch)) && cur != nil:
+			cur.e, cur.endIdx, cur.why = e.T, i, "terminated"
+			cur = nil
+		case (e.K == "close>" || e.K == "sockdie") && cur == nil:
+			// terminated while reconnecting: nothing more to judge
+			goto judge
+		}
+	}
+judge:
+	for n, E := range eps {
+		end := E.e
+		if end < 0 {
+			end = endT
+		}
+		var starts, startsIncl []int64 // exchanges that began strictly before / not after the end of the epoch
+		for k := int64(1); E.s+k*h <= end; k++ {
+			startsIncl = append(startsIncl, E.s+k*h)
+			if E.s+k*h < end {
+				starts = append(starts, E.s+k*h)
+			}
+		}
+		// (1) and (2)
+		have := map[int64]bool{}
+		next := int64(1) << 62
+		if n+1 < len(eps) {
+			next = eps[n+1].s
+		}
+		for i, e := range evs {
+			if e.K != "out" || e.Svc != "ConnStateReq" || e.T < E.s || e.T >= next {
+				continue
+			}
+			if E.e >= 0 && e.T > E.e {
+				return failTrace(evs, i, "heartbeat-after-epoch", "connection-state request (channel %d) at %s although the epoch on channel %d ended at %s (%s) and no new one has begun", e.Ch, ms(e.T), E.ch, ms(E.e), E.why), ""
+			}
+			if e.Ch != E.ch {
+				return failTrace(evs, i, "stale-channel", "connection-state request at %s carries channel %d; the connection's channel is %d", ms(e.T), e.Ch, E.ch), ""
+			}
+			have[e.T] = true
+			ok := false
+			for _, x := range startsIncl {
+				if e.T >= x && e.T-x <= T && (e.T-x)%r == 0 {
+					ok = true
+					break
+				}
+			}
+			if !ok && !(E.e >= 0 && e.T == E.e) {
+				return failTrace(evs, i, "heartbeat-off-schedule", "connection-state request at %s is on the schedule of no exchange of its epoch (epoch start %s, heartbeat %s, resend %s, timeout %s)", ms(e.T), ms(E.s), ms(h), ms(r), ms(T)), ""
+			}
+		}
+		for _, x := range starts {
+			if !have[x] {
+				at := len(evs) - 1
+				for i, e := range evs {
+					if e.T >= x {
+						at = i
+						break
+					}
+				}
+				return failTrace(evs, at, "heartbeat-missing", "no connection-state request at %s: epoch on channel %d began at %s and the heartbeat interval is %s", ms(x), E.ch, ms(E.s), ms(h)), ""
+			}
+		}
+		// responses for the current channel taken during the epoch
+		type rsp struct {
+			t  int64
+			ok bool
+		}
+		var rs []rsp
+		for _, e := range evs {
+			if e.K == "dlv" && e.Svc == "ConnStateRes" && e.Ch == E.ch && e.T >= E.s && e.T <= end {
+				rs = append(rs, rsp{e.T, e.St == 0})
+			}
+		}
+		// (4)
+		for _, x := range starts {
+			if x+T >= end {
+				continue
+			}
+			answered := false
+			for _, q := range rs {
+				if q.ok && q.t > x-r && q.t < x+T {
+					answered = true
+					break
+				}
+			}
+			if !answered {
+				at := len(evs) - 1
+				for i, e := range evs {
+					if e.T >= x+T {
+						at = i
+						break
+					}
+				}
+				return failTrace(evs, at, "dead-heartbeat-ignored", "the exchange that began at %s got no OK response for channel %d (none was available between %s and %s), yet the epoch went on beyond %s", ms(x), E.ch, ms(x-r), ms(x+T), ms(x+T)), ""
+			}
+		}
+		// (3)
+		if E.why == "reconnect" && !E.discReq {
+			explained := false
+			for _, x := range startsIncl {
+				if E.e == x+T {
+					explained = true
+				}
+				for _, q := range rs {
+					if !q.ok && (q.t == E.e || (E.e == x && q.t > x-r && q.t <= x)) {
+						explained = true
+					}
+				}
+			}
+			for _, q := range rs {
+				if !q.ok && q.t == E.e {
+					explained = true
+				}
+			}
+			if !explained {
+				return failTrace(evs, E.endIdx, "reconnect-unexplained", "the client abandoned the epoch on channel %d at %s and reconnects, but no disconnect request was taken, no exchange timed out then and no error response was available (exchange starts %v)", E.ch, ms(E.e), starts), ""
+			}
+		}
+		// (5)
+		if E.why == "reconnect" {
+			for i, e := range evs {
+				if e.K == "out" && e.Svc == "ConnReq" && e.T >= E.e && e.T < next {
+					if (e.T-E.e)%r != 0 || e.T-E.e > T {
+						return failTrace(evs, i, "reconnect-off-schedule", "connect request at %s; the reconnect began at %s, resend %s, timeout %s", ms(e.T), ms(E.e), ms(r), ms(T)), ""
+					}
+				}
+			}
+		}
+	}
+	return nil, ""
+}
+
+// ------------------------------------------------------------------------------------------------
+// C09 on the real clock: Sends queued behind an unacknowledged Send while the tunnel reconnects.
+// "After a successful reconnect all frames carry the newly assigned channel" is judged with a grace:
+// a request *first* transmitted later than `grace` after the client took an OK connect response
+// (and with no further connect response in between) must carry that response's channel.
+// ------------------------------------------------------------------------------------------------
+
+const c09Grace = int64(100e6)
+
+func oracleC09R(p *Plan, res *Result) (*common.Fail, bool) {
+	evs := res.Events
+	type epoch struct {
+		t  int64
+		ch int
+	}
+	var eps []epoch
+	first := map[int]bool{}
+	queuedAcross := false
+	sendStart := map[int]int64{}
+	for i, e := range evs {
+		switch {
+		case e.K == "dlv" && e.Svc == "ConnRes" && e.St == 0:
+			eps = append(eps, epoch{e.T, e.Ch})
+		case e.K == "send>":
+			sendStart[e.Tag] = e.T
+		case e.K == "out" && e.Svc == "TunnelReq":
+			if first[e.Tag] {
+				continue // retransmission: carries what the first transmission carried (C03)
+			}
+			first[e.Tag] = true
+			// the epoch that was certainly in force
+			n, ambiguous := -1, false
+			var nt int64
+			for _, ep := range eps {
+				switch {
+				case ep.t <= e.T-c09Grace:
+					n, nt = ep.ch, ep.t
+				case ep.t <= e.T:
+					ambiguous = true
+				}
+			}
+			if n < 0 || ambiguous {
+				continue
+			}
+			if st, ok := sendStart[e.Tag]; ok && st < nt {
+				queuedAcross = true
+			}
+			if e.Ch != n {
+				return failTrace(evs, i, "stale-channel", "the request for telegram %d was first transmitted at %s with channel %d; the client had taken the connect response assigning channel %d at %s, %s earlier (the Send had been waiting since %s)",
+					e.Tag, ms(e.T), e.Ch, n, ms(nt), ms(e.T-nt), ms(sendStart[e.Tag])), false
+			}
+		}
+	}
+	return nil, queuedAcross
+}
+
+func genPlanC09R(rt *rapid.T) *Plan {
+	c := Cfg{ResendUs: 20000, TimeoutUs: rapid.SampledFrom([]int{160000, 220000, 300000}).Draw(rt, "timeout"), HeartbeatUs: 3_600_000_000}
+	p := &Plan{Cfg: c, DefConn: okFate(300), DefHb: okFate(200), DefAck: okFate(100), DefDisc: okFate(300)}
+	if rapid.IntRange(0, 3).Draw(rt, "same-channel") == 0 {
+		p.DefConn.Ch = -1
+	}
+	// the first Send (or the first few transmissions) get no acknowledgement: it holds the sender lock until its timeout
+	lost := rapid.IntRange(8, 30).Draw(rt, "lost-acks")
+	for i := 0; i < lost; i++ {
+		p.Ack = append(p.Ack, Fate{Act: "lose"})
+	}
+	lanes := rapid.IntRange(2, 4).Draw(rt, "senders")
+	tag := 1
+	for l := 0; l < lanes; l++ {
+		var lane []AppStep
+		for i := 0; i < rapid.IntRange(1, 2).Draw(rt, "n"); i++ {
+			lane = append(lane, AppStep{AfterUs: rapid.IntRange(0, 3000).Draw(rt, "gap") + l*500, Tag: tag})
+			tag++
+		}
+		p.Senders = append(p.Senders, lane)
+	}
+	// the gateway ends the connection while the first Send is pending; the client reconnects at once
+	p.Gw = []GwStep{{AfterUs: rapid.IntRange(4000, 40000).Draw(rt, "disc-at"), Kind: "discreq", Chan: "cur"}}
+	if rapid.Bool().Draw(rt, "second-reconnect") {
+		p.Gw = append(p.Gw, GwStep{AfterUs: rapid.IntRange(20000, 200000).Draw(rt, "disc2-at"), Kind: "discreq", Chan: "cur"})
+	}
+	return p
 }
